@@ -312,5 +312,6 @@ package types
 //@   (mk.wrkchain.WrkChainBlockGenesisExport (wrkchain.WrkChainBlock.Height b) (wrkchain.WrkChainBlock.Blockhash b) (wrkchain.WrkChainBlock.Parenthash b) (wrkchain.WrkChainBlock.Hash1 b) (wrkchain.WrkChainBlock.Hash2 b) (wrkchain.WrkChainBlock.Hash3 b) (wrkchain.WrkChainBlock.SubTime b)))
 //@ (define-fun blockKeyId ((k wrkchain.Key)) Int (kBlock.id k))
 //@ (define-fun isWrkChainKey ((k wrkchain.Key)) Bool ((_ is kWrkChain) k))
+//@ (define-fun wrkChainKeyId ((k wrkchain.Key)) Int (kWrkChain.id k))
 //@ (define-fun isLimitKey ((k wrkchain.Key)) Bool ((_ is kLimit) k))
 //@ end
